@@ -112,6 +112,11 @@ func (fe functionExpr) CompletionAtPos(ctx context.Context, pos hcl.Pos) []lang.
 	case *hclsyntax.FunctionCallExpr:
 		if eType.NameRange.ContainsPos(pos) {
 			prefixLen := pos.Byte - eType.NameRange.Start.Byte
+			if prefixLen > len(eType.Name) {
+				// the name range may be longer than the name itself,
+				// e.g. when whitespace surrounds the namespace separator
+				prefixLen = len(eType.Name)
+			}
 			prefix := eType.Name[0:prefixLen]
 			editRange := eType.Range()
 			return fe.matchingFunctions(prefix, editRange)
